@@ -837,6 +837,86 @@ def run_restart(spec):
 
 
 # ---------------------------------------------------------------------------------
+# analyzers: HDF5 through pyscf.lib.chkfile bypasses Python I/O, so a real scratch
+# directory is used and only the cycle / restart dimensions apply
+# ---------------------------------------------------------------------------------
+def analyzer_digest(an):
+    h = _h()
+    h.update(type(an).__name__.encode())
+    h.update(str(int(an.grids_level)).encode())
+    _add(h, np.asarray(an.dm))
+    for name in ("mo_occ", "mo_coeff", "mo_energy"):
+        v = getattr(an, name)
+        h.update(b"none" if v is None else b"arr")
+        if v is not None:
+            _add(h, np.asarray(v))
+    _add(h, an.mol.atom_coords())
+    h.update(repr(an.mol._basis).encode() if False else str(an.mol.nao_nr()).encode())
+    _add(h, an.mol._env)
+    _add(h, an.mol._bas)
+    h.update(str((int(an.mol.spin), int(an.mol.charge))).encode())
+    for k in sorted(an.keys()):
+        h.update(k.encode())
+        _add(h, np.asarray(an.get(k)))
+    _add(h, an.grids.weights)
+    return h.hexdigest()
+
+
+def run_analyzer(spec):
+    import shutil
+    import tempfile
+
+    from ciderpress.pyscf.analyzers import ElectronAnalyzer, RHFAnalyzer, UHFAnalyzer
+    from cidersim import zoo
+
+    ck = Checker()
+    rp = {"property": PROP, "engine": "fsim", "case": spec}
+    rng = Rng(derive("analyzer", spec["seed"]))
+    uks = bool(rng.chance(0.5))
+    mol = zoo.make_mol(rng.choice(["H2", "LiH", "H2O"] if not uks else ["OH", "O", "H2"]), "sto-3g")
+    nao = mol.nao_nr()
+    r = np.random.default_rng(spec["seed"])
+    dm = zoo.make_dm(mol, rng, 2 if uks else 1)
+    cls = UHFAnalyzer if uks else RHFAnalyzer
+    shape = (2, nao) if uks else (nao,)
+    an = cls(mol, dm, grids_level=0, mo_occ=r.uniform(0, 2, shape), mo_coeff=r.normal(size=shape + (nao,)), mo_energy=r.normal(size=shape))
+    an.set("ex_energy_density", r.normal(size=an.grids.weights.size))
+    an.set("some_scalar", np.float64(r.normal()))
+    ref = analyzer_digest(an)
+    ck.dg.add(ref)
+    wd = tempfile.mkdtemp(prefix="fsim_an_", dir=os.environ.get("VERIF_SCRATCH", "/tmp"))
+    try:
+        cur = an
+        for c in range(3):
+            path = os.path.join(wd, "an.v%d.hdf5" % c)
+            try:
+                cur.dump(path)
+                cur = ElectronAnalyzer.load(path)
+            except Exception as e:
+                ck.v("roundtrip:ElectronAnalyzer:%s:raises-%s" % (cls.__name__, type(e).__name__), str(e)[:200], rp)
+                break
+            ck.stats["analyzer_cycles"] += 1
+            d = analyzer_digest(cur)
+            if d != ref:
+                ck.v("roundtrip:ElectronAnalyzer.load:%s:mismatch" % cls.__name__, "cycle %d: reloaded analyzer differs" % c, rp)
+                break
+        # fresh interpreter, other hash seed
+        if not ck.viol:
+            env = dict(os.environ)
+            env["PYTHONHASHSEED"] = str(1 + spec["seed"] % 4000)
+            env["PYTHONPATH"] = os.path.dirname(os.path.dirname(os.path.dirname(os.path.abspath(__file__))))
+            p = subprocess.run([sys.executable, "-m", "cidersim.engines.fsim_child", "--analyzer", os.path.join(wd, "an.v0.hdf5")], capture_output=True, env=env, timeout=600)
+            ck.stats["restarts"] += 1
+            out = p.stdout.decode().strip().splitlines()
+            if p.returncode != 0 or not out or out[-1] != ref:
+                ck.v("restart:ElectronAnalyzer.load:differs-in-fresh-process", (out[-1] if out else p.stderr.decode()[-200:])[:200], rp)
+    finally:
+        shutil.rmtree(wd, ignore_errors=True)
+    ck.sample = {"analyzer": cls.__name__, "mol_nao": nao}
+    return finish(ck, spec, nontrivial=ck.stats["analyzer_cycles"] > 0)
+
+
+# ---------------------------------------------------------------------------------
 # engine protocol
 # ---------------------------------------------------------------------------------
 def warm(args):
@@ -910,6 +990,8 @@ def plan(tier, seed, args):
     # corruption
     for d in range(2 if tier == "quick" else 8):
         cases.append({"kind": "corrupt", "seed": rng.below(10**6)})
+    for d in range(4 if tier == "quick" else 40):
+        cases.append({"kind": "analyzer", "seed": rng.below(10**6)})
     # seeded histories
     nh = args.cases if args.cases is not None else (240 if tier == "quick" else 12000)
     for i in range(nh):
@@ -930,6 +1012,8 @@ def run_case(spec):
         return run_history(spec)
     if k == "restart":
         return run_restart(spec)
+    if k == "analyzer":
+        return run_analyzer(spec)
     raise ValueError(k)
 
 
